@@ -47,7 +47,8 @@ def isStep (s : List Char) : Bool :=
   | some n => n ≤ 2147483647
   | none => false
 
-def isMulti (s : List Char) : Bool :=
+/-- `<STEP;STEP;…>` with at least two alternatives (shape only) -/
+def isMultiShape (s : List Char) : Bool :=
   match s with
   | '<' :: rest =>
     match rest.getLast? with
@@ -56,6 +57,25 @@ def isMulti (s : List Char) : Bool :=
       parts.length ≥ 2 && parts.all isStep
     | _ => false
   | _ => false
+
+/-- a step with its hardened marker normalised (`0'` and `0h` are the same step, `0` is not) -/
+def normStep (s : List Char) : List Char :=
+  match s.getLast? with
+  | some 'h' | some '\'' => s.dropLast ++ ['h']
+  | _ => s
+
+def distinctL : List (List Char) → Bool
+  | [] => true
+  | x :: xs => !xs.contains x && distinctL xs
+
+/-- the alternatives of a multipath step are pairwise distinct (BIP-389: no repeated index) -/
+def multiDistinct (s : List Char) : Bool :=
+  match s with
+  | '<' :: rest => distinctL ((splitAll ';' rest.dropLast).map normStep)
+  | _ => true
+
+/-- a BIP-389 multipath step -/
+def isMulti (s : List Char) : Bool := isMultiShape s && multiDistinct s
 
 def isWildcard (s : List Char) : Bool := s == ['*'] || s == ['*', 'h'] || s == ['*', '\'']
 
@@ -111,5 +131,22 @@ form has no single public counterpart (the xpubs behind the members differ), so
 `Descriptor::parse_descriptor`, which must return public keys, refuses it by design -/
 def hardenedMulti (s : List Char) : Bool :=
   (splitAll '/' s).any fun part => isMulti part && (part.contains 'h' || part.contains '\'')
+
+/-- a key expression that is well formed except that a multipath step repeats an alternative
+(`x/<0;0;1>/*`): BIP-389 forbids it, and a parser that accepted it could not print it back
+(the alternatives are how the printer finds the multipath step) — it must be REFUSED -/
+def repeatedMulti (secret : Bool) (s : List Char) : Bool :=
+  let body := match s with
+    | '[' :: rest => (rest.dropWhile (· != ']')).drop 1
+    | _ => s
+  let parts := splitAll '/' body
+  -- the same text with every repeated step made distinct would be valid: approximate by checking
+  -- the shape of every part and the extended key
+  match parts with
+  | k :: steps =>
+    isXkey secret k && steps.any (fun p => isMultiShape p && !multiDistinct p)
+      && steps.all (fun p => isStep p || isMultiShape p || isWildcard p)
+      && (steps.filter isMultiShape).length ≤ 1
+  | [] => false
 
 end MsVerif.Spec.KeyGrammar
